@@ -169,6 +169,7 @@ func (c *zzChainModel) SendRawTransaction(tx *wire.MsgTx, _ bool) (*chainhash.Ha
 
 type zzWalletWorld struct {
 	dryAcct uint32         // C09: account number a dry-run import used
+	withImported bool      // C09: fund an imported key too
 	coins9 []wire.OutPoint // C09: funding outpoints
 	db     *memdb.DB
 	w      *Wallet
